@@ -1,5 +1,6 @@
 import NbioVerif.Model.Ws
 import NbioVerif.Lemmas.WsRoundTrip
+import NbioVerif.Model.WsBatch
 /-!
 # The bounded send queue of asynchronous `WriteMessage`: all the frames of a message or none
 
@@ -169,5 +170,48 @@ theorem appWritesQ_eq (g : Cfg) (e : Env) (size : Nat) (hmf : g.maxFrame > 0) : 
         | some _ => rfl
       simp only [hn, Bool.false_eq_true, if_false, hw, hk, hq, List.flatten_nil, List.nil_append]
       exact ⟨ih1, fun m hm => List.mem_cons_of_mem _ (ih2 m hm)⟩
+
+/-! ### the batch function of the driver (`batchQ`, observed deflate outputs) = `appWritesQ` for a deflate function -/
+
+/-- the observed deflate outputs are those of a function `defl` of the payload: the `ci`-th output is `defl` of the
+    `ci`-th compressible message of the batch -/
+def DeflTable (g : Cfg) (defl : Bytes → Bytes) (defls : List Bytes) : Nat → List (Nat × Bytes) → Prop
+  | _, [] => True
+  | ci, (op, x) :: ms =>
+    ((g.writeCompression && (op == 1 || op == 2)) = true → defls.getD ci [] = defl x) ∧
+    DeflTable g defl defls (if g.writeCompression && (op == 1 || op == 2) then ci + 1 else ci) ms
+
+/-- one call looks at the deflater only through its output for this payload, and only if the message is compressed -/
+theorem appWriteQ_deflate (g : Cfg) (base : Env) (d : Bytes) (defl : Bytes → Bytes) (k : K) (size q op : Nat) (x : Bytes)
+    (h : (g.writeCompression && (op == 1 || op == 2)) = true → d = defl x) :
+    appWriteQ g { base with deflate := fun _ => d } k size q op x = appWriteQ g { base with deflate := defl } k size q op x := by
+  cases hc : (g.writeCompression && (op == 1 || op == 2)) with
+  | false => simp [appWriteQ, writeMessage, wirePayload, hc]
+  | true => simp [appWriteQ, writeMessage, wirePayload, hc, h hc]
+
+theorem code_ne_zero (er : Err) : (er.code == 0) = false := by cases er <;> rfl
+
+/-- what the driver computes for a batch is the batch of `appWritesQ` for the environment whose deflater is `defl`:
+    same bytes, and the calls that returned 0 are the accepted messages -/
+theorem batchQ_eq (g : Cfg) (base : Env) (defl : Bytes → Bytes) (defls : List Bytes) (size : Nat) :
+    ∀ (ms : List (Nat × Bytes)) (k : K) (ci q : Nat), DeflTable g defl defls ci ms →
+      (batchQ g base defls size k ci q ms).wire = (appWritesQ g { base with deflate := defl } size k q ms).1 ∧
+      acceptedOf ms (batchQ g base defls size k ci q ms).codes = (appWritesQ g { base with deflate := defl } size k q ms).2 := by
+  intro ms
+  induction ms with
+  | nil => intro k ci q _; simp [batchQ, appWritesQ, acceptedOf]
+  | cons m ms ih =>
+    intro k ci q ht
+    obtain ⟨op, x⟩ := m
+    obtain ⟨h1, h2⟩ := ht
+    have hq := appWriteQ_deflate g base (defls.getD ci []) defl k size q op x h1
+    obtain ⟨ihw, iha⟩ := ih (appWriteQ g { base with deflate := defl } k size q op x).k
+      (if g.writeCompression && (op == 1 || op == 2) then ci + 1 else ci)
+      (appWriteQ g { base with deflate := defl } k size q op x).qlen h2
+    simp only [batchQ, appWritesQ, acceptedOf, hq, ihw]
+    refine ⟨trivial, ?_⟩
+    cases he : (appWriteQ g { base with deflate := defl } k size q op x).err with
+    | none => simpa using iha
+    | some er => simpa [code_ne_zero] using iha
 
 end Ws
